@@ -9,6 +9,8 @@
     m <name> <rows> <cols> <values>                 Matrix::from_flat_row_major   → ok | panic(explicit)
     w <name> <src> range <start:len> <start:len>    MatrixRange over a matrix/view → ok size=RxC | none
     w <name> <src> reverse <0|1><0|1>               MatrixReverse
+    w <name> <tensor operand> oftensor              MatrixRefTensor over a 2-D tensor / tensor view → ok size=RxC | none
+    mmap <A> via=<form>                             Matrix::map / MatrixView::map with x*x-x
     add|sub|mul|ewise <A> <B> via=<form>            operators / elementwise(x*y-y) → shape=… data=… | size=RxC data=… | panic(k)
     sadd|ssub|smul|sdiv <A> <scalar> via=<form>     scalar broadcasts
     neg <A> via=<form>                              matrices only
@@ -125,6 +127,13 @@ def stepEnv (e : Env α) (toks : List String) : Env α × String :=
       | .ok m => ({ e with mats := (name, .matrix m) :: e.mats }, "ok")
       | .panic k => (e, s!"panic({k})")
     | _, _, _ => (e, "bad-op")
+  | ["w", name, src, "oftensor"] =>
+    match lookupT e src with
+    | none => (e, "no-operand")
+    | some o =>
+      match MView.ofTView o.asView with
+      | some v => ({ e with mats := (name, .view v) :: e.mats }, s!"ok size={v.rows}x{v.columns}")
+      | none => (e, "none")
   | "w" :: name :: src :: kind :: args =>
     match lookupM e src with
     | none => (e, "no-operand")
@@ -173,6 +182,10 @@ def stepEnv (e : Env α) (toks : List String) : Env α × String :=
     else if op = "neg" then
       match lookupM e a with
       | some x => (e, showMatrix (mNeg x))
+      | none => (e, "no-operand")
+    else if op = "mmap" then
+      match lookupM e a with
+      | some x => (e, showMatrix (mMap (fun v => v * v - v) x))
       | none => (e, "no-operand")
     else (e, "bad-op")
   | ["neg", a] =>
